@@ -1,5 +1,7 @@
 import RlibModel.Lemmas.Writer
 import RlibModel.Lemmas.ReaderDecimal
+import RlibModel.Lemmas.ReaderSched
+import RlibModel.Model.IoRoundTrip
 /-!
 Bridge between the two halves of the `io` engine (core Lean only):
 
@@ -20,6 +22,11 @@ Nothing in either model is changed; every lemma here is about the existing defin
    chunking, any `Interrupted` placement, any buffer size ≥ 1), via C08's `runScript_spec`.
 5. lines: `specLine_line`, `spec_reads_lines`, `spec_read_lines`.
 6. `bytewise` — the byte-by-byte delivery with an `Interrupted` before every byte, for any input.
+7. read plans (`Model/IoRoundTrip.lean`): `spec_atom_token` (continuation style: one leaf, then the tokenizer
+   goes on behind it), `spec_tuple_tokens`, `spec_vec_tokens`, `spec_grp_tokens`, `spec_plan`, `read_back_plan`
+   — tuples of any arity, `read_vec`, `read::<char>()` for one-byte words; `planOps_*`: the harness plan is a
+   plan; `harnessSched_pos`; `readBack_eq` — what `drv_writer` computes for an `r` line.
+8. `spec_reads_chars` — characters written with `write_char`, read with `read::<char>()`.
 -/
 namespace Rlib.IoBridge
 open Rlib.Reader (Event srcBytes SrcOk)
@@ -419,5 +426,318 @@ theorem chunked_spec (k : Nat) : ∀ bs : List UInt8, srcBytes (chunked k bs) = 
       rcases List.take_eq_nil_iff.mp h0 with h1 | h1
       · omega
       · exact h h1
+
+/-! ### 7. Read plans: tuples, `read_vec`, `char` -/
+open Rlib.IoRT
+
+/-- Continuation style: if the Writer's tokenizer sees the text of leaf `p` first and `toks` behind it, the Reader
+    specification reads `p` with its atom (integer type, `String`, or `char` for a one-byte word) and leaves a
+    byte string whose tokens are `toks`. -/
+theorem spec_atom_token (p : P) (hl : LeafOK p.1) (bs : List UInt8) (toks : List (List UInt8))
+    (ht : Decimal.tokenize bs = Writer.leafText p.1 :: toks) :
+    ∃ r, Reader.specAtom (atomA p) bs = some (.ok (valA p, r)) ∧ Decimal.tokenize r = toks := by
+  rw [tokenize_skip] at ht
+  cases hsk : Reader.specSkipWs bs with
+  | nil => rw [hsk] at ht; simp [Decimal.tokenize_nil] at ht
+  | cons c r =>
+    have hc := skip_head bs c r hsk
+    rw [hsk, tokenize_word _ c r rfl hc] at ht
+    injection ht with h1 h2
+    have hstr : Reader.specString bs = Reader.specTok (c :: r) := by rw [Reader.specString, hsk]
+    obtain ⟨l, alt⟩ := p
+    cases l with
+    | int t v =>
+      have hI := specInt_of_token t v hl bs c r hsk h1
+      exact ⟨_, by simp only [atomA, valA, Reader.specAtom, hI], h2⟩
+    | seq _ _ => exact False.elim hl
+    | str b =>
+      simp only [Writer.leafText] at h1
+      have hS : Reader.specAtom .str bs = some (.ok (.str b.data.toList, (Reader.specTok (c :: r)).2)) := by
+        simp only [Reader.specAtom, hstr, h1]
+      cases alt with
+      | false => exact ⟨_, by simp only [atomA, valA]; exact hS, h2⟩
+      | true =>
+        cases hb : b.data.toList with
+        | nil => exact ⟨_, by simp only [atomA, valA, hb]; rw [hS, hb], h2⟩
+        | cons c0 tl =>
+          cases tl with
+          | cons c1 tl' => exact ⟨_, by simp only [atomA, valA, hb]; rw [hS, hb], h2⟩
+          | nil =>
+            rw [hb] at h1
+            simp only [Reader.specTok, List.takeWhile_cons, hc, Bool.not_false, if_true, List.cons.injEq] at h1
+            have hdrop : (Reader.specTok (c :: r)).2 = r := by
+              have := List.takeWhile_append_dropWhile (p := fun c => !Reader.isWs c) (l := r)
+              rw [h1.2, List.nil_append] at this
+              simp only [Reader.specTok, List.dropWhile_cons, hc, Bool.not_false, if_true]
+              exact this
+            refine ⟨r, ?_, by rw [← hdrop]; exact h2⟩
+            simp only [atomA, valA, hb, Reader.specAtom, Reader.specChar, hsk, h1.1]
+
+theorem spec_tuple_tokens : ∀ (ps : List P) (bs : List UInt8) (toks : List (List UInt8)),
+    (∀ p ∈ ps, LeafOK p.1) → Decimal.tokenize bs = ps.map (fun p => Writer.leafText p.1) ++ toks →
+    ∃ r, Reader.specTuple (ps.map atomA) bs = some (.ok (ps.map valA, r)) ∧ Decimal.tokenize r = toks := by
+  intro ps
+  induction ps with
+  | nil => intro bs toks _ ht; exact ⟨bs, rfl, by simpa using ht⟩
+  | cons p ps ih =>
+    intro bs toks hok ht
+    obtain ⟨r1, e1, t1⟩ := spec_atom_token p (hok p List.mem_cons_self) bs _ (by simpa using ht)
+    obtain ⟨r2, e2, t2⟩ := ih r1 toks (fun q hq => hok q (List.mem_cons_of_mem _ hq)) t1
+    exact ⟨r2, by simp only [List.map_cons, Reader.specTuple, e1, e2], t2⟩
+
+theorem spec_vec_tokens (as : List Reader.Atom) : ∀ (rows : List (List P)) (bs : List UInt8) (toks : List (List UInt8)),
+    (∀ r ∈ rows, r.map atomA = as) → (∀ r ∈ rows, ∀ p ∈ r, LeafOK p.1) →
+    Decimal.tokenize bs = rows.flatten.map (fun p => Writer.leafText p.1) ++ toks →
+    ∃ r, Reader.specVec as rows.length bs = some (.ok (rows.map (fun r => r.map valA), r)) ∧
+      Decimal.tokenize r = toks := by
+  intro rows
+  induction rows with
+  | nil => intro bs toks _ _ ht; exact ⟨bs, rfl, by simpa using ht⟩
+  | cons row rows ih =>
+    intro bs toks hat hok ht
+    rw [List.flatten_cons, List.map_append, List.append_assoc] at ht
+    obtain ⟨r1, e1, t1⟩ := spec_tuple_tokens row bs _ (hok row List.mem_cons_self) ht
+    rw [hat row List.mem_cons_self] at e1
+    obtain ⟨r2, e2, t2⟩ := ih r1 toks (fun q hq => hat q (List.mem_cons_of_mem _ hq))
+      (fun q hq => hok q (List.mem_cons_of_mem _ hq)) t1
+    exact ⟨r2, by simp only [List.length_cons, List.map_cons, Reader.specVec, e1, e2], t2⟩
+
+theorem spec_grp_tokens (g : Grp) (hg : g.okB = true) (hok : ∀ p ∈ g.leaves, LeafOK p.1) (bs : List UInt8)
+    (toks : List (List UInt8)) (ht : Decimal.tokenize bs = g.leaves.map (fun p => Writer.leafText p.1) ++ toks) :
+    ∃ r, Reader.specOp g.op bs = some (.ok (g.out, r)) ∧ Decimal.tokenize r = toks := by
+  cases g with
+  | one p =>
+    obtain ⟨r, e, t⟩ := spec_atom_token p (hok p (by simp [Grp.leaves])) bs toks (by simpa [Grp.leaves] using ht)
+    exact ⟨r, by simp only [Grp.op, Grp.out, Reader.specOp, e], t⟩
+  | tup ps =>
+    obtain ⟨r, e, t⟩ := spec_tuple_tokens ps bs toks hok ht
+    exact ⟨r, by simp only [Grp.op, Grp.out, Reader.specOp, e], t⟩
+  | vec as rows =>
+    have hat : ∀ r ∈ rows, r.map atomA = as := by
+      intro r hr
+      simp only [Grp.okB, List.all_eq_true] at hg
+      exact eq_of_beq (hg r hr)
+    have hok' : ∀ r ∈ rows, ∀ p ∈ r, LeafOK p.1 :=
+      fun r hr p hp => hok p (by simp only [Grp.leaves, List.mem_flatten]; exact ⟨r, hr, hp⟩)
+    obtain ⟨r, e, t⟩ := spec_vec_tokens as rows bs toks hat hok' ht
+    exact ⟨r, by simp only [Grp.op, Grp.out, Reader.specOp, e], t⟩
+
+/-- **Specification-level read-back for every read plan.** -/
+theorem spec_plan : ∀ (gs : List Grp) (bs : List UInt8), (∀ g ∈ gs, g.okB = true) →
+    (∀ g ∈ gs, ∀ p ∈ g.leaves, LeafOK p.1) →
+    Decimal.tokenize bs = (gs.flatMap Grp.leaves).map (fun p => Writer.leafText p.1) →
+    Reader.specScript (script gs) bs = expected gs := by
+  intro gs
+  induction gs with
+  | nil =>
+    intro bs _ _ ht
+    rw [tokenize_unfold] at ht
+    by_cases hsk : Reader.specSkipWs bs = []
+    · simp [script, expected, Reader.specScript, Reader.specOp, Reader.specIsEof, hsk]
+    · rw [if_neg hsk] at ht; simp at ht
+  | cons g gs ih =>
+    intro bs hg hok ht
+    rw [List.flatMap_cons, List.map_append] at ht
+    obtain ⟨r, e, t⟩ := spec_grp_tokens g (hg g List.mem_cons_self) (hok g List.mem_cons_self) bs _ ht
+    have := ih r (fun q hq => hg q (List.mem_cons_of_mem _ hq)) (fun q hq => hok q (List.mem_cons_of_mem _ hq)) t
+    simp only [script, expected] at this ⊢
+    simp only [List.map_cons, List.cons_append, Reader.specScript, e, this]
+
+theorem expected_no_undef (gs : List Grp) : Reader.Res.undef ∉ expected gs := by
+  simp [expected]
+
+/-- The Reader **model** on any well-formed source delivering `bytes`, any buffer size ≥ 1, for every read plan
+    over the leaves that `bytes` tokenizes into. -/
+theorem read_back_plan (gs : List Grp) (hg : ∀ g ∈ gs, g.okB = true) (hok : ∀ g ∈ gs, ∀ p ∈ g.leaves, LeafOK p.1)
+    (src : List Event) (ok : SrcOk src)
+    (ht : Decimal.tokenize (srcBytes src) = (gs.flatMap Grp.leaves).map (fun p => Writer.leafText p.1))
+    (BUF : Nat) (hB : 0 < BUF) (fuel : Nat) (hf : (srcBytes src).length < fuel) :
+    Reader.runScript fuel (script gs) (Reader.init BUF src) = expected gs := by
+  have hspec := spec_plan gs (srcBytes src) hg hok ht
+  have := Reader.runScript_spec BUF hB fuel (script gs) (Reader.init BUF src) (Reader.init_inv BUF src ok)
+    (by rw [Reader.init_R]; exact hf) (by rw [Reader.init_R, hspec]; exact expected_no_undef gs)
+  rw [this, Reader.init_R, hspec]
+
+/-! #### The harness plan is a plan -/
+
+theorem homog_spec : ∀ (xs : List Writer.Val) (t : IntTy), homog xs = some t →
+    xs ≠ [] ∧ ∀ x ∈ xs, ∃ v, x = Writer.Val.int t v := by
+  intro xs t h
+  cases xs with
+  | nil => simp [homog] at h
+  | cons x xs =>
+    cases x with
+    | str _ => simp [homog] at h
+    | seq _ _ => simp [homog] at h
+    | int t0 v0 =>
+      simp only [homog] at h
+      split at h
+      · rename_i hall
+        cases h
+        refine ⟨by simp, ?_⟩
+        intro x hx
+        rcases List.mem_cons.mp hx with rfl | hx
+        · exact ⟨v0, rfl⟩
+        · have := List.all_eq_true.mp hall x hx
+          cases x with
+          | int t' v' => simp at this; subst this; exact ⟨v', rfl⟩
+          | str _ => simp at this
+          | seq _ _ => simp at this
+      · cases h
+
+theorem leavesList_ints (t : IntTy) : ∀ xs : List Writer.Val, (∀ x ∈ xs, ∃ v, x = Writer.Val.int t v) →
+    Writer.leavesList xs = xs
+  | [], _ => rfl
+  | x :: xs, h => by
+    obtain ⟨v, rfl⟩ := h x List.mem_cons_self
+    simp only [Writer.leavesList, Writer.leaves, List.singleton_append,
+      leavesList_ints t xs (fun y hy => h y (List.mem_cons_of_mem _ hy))]
+
+theorem flatten_singletons {α : Type} (f : α → P) : ∀ xs : List α, (xs.map (fun x => [f x])).flatten = xs.map f
+  | [] => rfl
+  | x :: xs => by simp [flatten_singletons f xs]
+
+mutual
+theorem planVal_spec (alt : Bool) : ∀ v : Writer.Val,
+    ((planVal alt v).flatMap Grp.leaves).map Prod.fst = Writer.leaves v ∧ ∀ g ∈ planVal alt v, g.okB = true
+  | .int t v => by simp [planVal, Grp.leaves, Writer.leaves, Grp.okB]
+  | .str bs => by simp [planVal, Grp.leaves, Writer.leaves, Grp.okB]
+  | .seq tuple xs => by
+    simp only [planVal, Writer.leaves]
+    cases hh : (if alt = true then homog xs else none) with
+    | none => exact planList_spec alt xs
+    | some t =>
+      have hh' : homog xs = some t := by
+        cases alt with
+        | false => simp at hh
+        | true => simpa using hh
+      obtain ⟨_, hall⟩ := homog_spec xs t hh'
+      have hl := leavesList_ints t xs hall
+      simp only
+      split
+      · refine ⟨?_, by simp [Grp.okB]⟩
+        simp [Grp.leaves, hl, List.map_map, Function.comp_def]
+      · refine ⟨?_, ?_⟩
+        · simp [Grp.leaves, hl, flatten_singletons, List.map_map, Function.comp_def]
+        · intro g hg
+          simp only [List.mem_singleton] at hg
+          subst hg
+          simp only [Grp.okB, List.all_eq_true, List.mem_map]
+          rintro r ⟨x, hx, rfl⟩
+          obtain ⟨v, rfl⟩ := hall x hx
+          simp [atomA]
+theorem planList_spec (alt : Bool) : ∀ xs : List Writer.Val,
+    ((planList alt xs).flatMap Grp.leaves).map Prod.fst = Writer.leavesList xs ∧ ∀ g ∈ planList alt xs, g.okB = true
+  | [] => by simp [planList, Writer.leavesList]
+  | x :: xs => by
+    obtain ⟨a1, b1⟩ := planVal_spec alt x
+    obtain ⟨a2, b2⟩ := planList_spec alt xs
+    simp only [planList, Writer.leavesList, List.flatMap_append, List.map_append, a1, a2, true_and]
+    intro g hg
+    rcases List.mem_append.mp hg with h | h
+    · exact b1 g h
+    · exact b2 g h
+end
+
+theorem planOps_spec (alt : Bool) : ∀ ops : List Writer.Op,
+    ((planOps alt ops).flatMap Grp.leaves).map Prod.fst = Writer.opsLeaves ops ∧ ∀ g ∈ planOps alt ops, g.okB = true
+  | [] => by simp [planOps, Writer.opsLeaves]
+  | o :: os => by
+    obtain ⟨a2, b2⟩ := planOps_spec alt os
+    have h1 : ((planOp alt o).flatMap Grp.leaves).map Prod.fst = Writer.opLeaves o ∧ ∀ g ∈ planOp alt o, g.okB = true := by
+      cases o with
+      | write v => exact planVal_spec alt v
+      | out nl vs => exact planList_spec alt vs
+      | wchar c => simp [planOp, Writer.opLeaves]
+      | flush => simp [planOp, Writer.opLeaves]
+    simp only [planOps, Writer.opsLeaves, List.flatMap_append, List.map_append, h1.1, a2, true_and]
+    intro g hg
+    rcases List.mem_append.mp hg with h | h
+    · exact h1.2 g h
+    · exact b2 g h
+
+/-- Hypotheses of `read_back_plan` for a plan `gs` whose leaves are the leaves of a valid script. -/
+theorem plan_hyps (ops : List Writer.Op) (hv : Writer.Op.validAll ops = true) (gs : List Grp)
+    (hl : (gs.flatMap Grp.leaves).map Prod.fst = Writer.opsLeaves ops) :
+    (∀ g ∈ gs, ∀ p ∈ g.leaves, LeafOK p.1) ∧
+    (gs.flatMap Grp.leaves).map (fun p => Writer.leafText p.1) = (Writer.opsLeaves ops).map Writer.leafText := by
+  constructor
+  · intro g hg p hp
+    apply opsLeaves_ok ops hv
+    rw [← hl]
+    exact List.mem_map.mpr ⟨p, List.mem_flatMap.mpr ⟨g, hg, hp⟩, rfl⟩
+  · rw [← hl, List.map_map]; rfl
+
+theorem harnessSched_pos (rc len : Nat) : ∀ k n, (some k, n) ∈ harnessSched rc len → 0 < k := by
+  intro k n h
+  unfold harnessSched at h
+  split at h
+  · simp at h
+  · rename_i hrc
+    rcases List.mem_append.mp h with h | h
+    · obtain ⟨l, hl, hm⟩ := List.mem_flatten.mp h
+      rw [List.eq_of_mem_replicate hl] at hm
+      simp at hm
+      omega
+    · simp at h; omega
+
+/-- The harness source, as the Reader model's event list, is well formed and delivers exactly the text. -/
+theorem harness_src (rc : Nat) (text : List UInt8) :
+    srcBytes (Reader.mkEvents (harnessSched rc text.length) text #[]) = text ∧
+    SrcOk (Reader.mkEvents (harnessSched rc text.length) text #[]) := by
+  have h := Reader.mkEvents_spec (harnessSched rc text.length) text #[] (harnessSched_pos rc text.length) (by simp [SrcOk])
+  simpa [srcBytes] using h
+
+/-! ### 8. Characters written with `write_char` -/
+
+theorem specOp_chr_ws (b : UInt8) (hb : Reader.isWs b = true) (rest : List UInt8) :
+    Reader.specOp (.read .chr) (b :: rest) = Reader.specOp (.read .chr) rest ∧
+    Reader.specOp .eof (b :: rest) = Reader.specOp .eof rest := by
+  have : Reader.specSkipWs (b :: rest) = Reader.specSkipWs rest := by
+    simp only [Reader.specSkipWs, List.dropWhile_cons, hb, if_true]
+  simp only [Reader.specOp, Reader.specAtom, Reader.specChar, Reader.specIsEof, this, and_self]
+
+/-- Every non-whitespace byte of a text is returned by one `read::<char>()`, in order; whitespace is skipped. -/
+theorem spec_reads_chars : ∀ bs : List UInt8,
+    Reader.specScript ((bs.filter (fun c => !Reader.isWs c)).map (fun _ => Reader.Op.read .chr) ++ [.eof]) bs
+      = (bs.filter (fun c => !Reader.isWs c)).map (fun c => Reader.Res.out (.val (.chr c))) ++ [.out (.bool true)] := by
+  intro bs
+  induction bs with
+  | nil => decide
+  | cons b rest ih =>
+    by_cases hb : Reader.isWs b = true
+    · obtain ⟨e1, e2⟩ := specOp_chr_ws b hb rest
+      have hf : (b :: rest).filter (fun c => !Reader.isWs c) = rest.filter (fun c => !Reader.isWs c) := by
+        simp [hb]
+      rw [hf, ← ih]
+      cases rest.filter (fun c => !Reader.isWs c) with
+      | nil => simp only [List.map_nil, List.nil_append, Reader.specScript, e2]
+      | cons x xs => simp only [List.map_cons, List.cons_append, Reader.specScript, e1]
+    · have hb' : Reader.isWs b = false := by simpa using hb
+      have hf : (b :: rest).filter (fun c => !Reader.isWs c) = b :: rest.filter (fun c => !Reader.isWs c) := by
+        simp [hb']
+      have hsk : Reader.specSkipWs (b :: rest) = b :: rest := by
+        simp [Reader.specSkipWs, hb']
+      rw [hf]
+      simp only [List.map_cons, List.cons_append, Reader.specScript, Reader.specOp, Reader.specAtom, Reader.specChar, hsk, ih]
+
+/-- `write_char` for every code point. -/
+def charOps (codes : List Nat) : List Writer.Op := codes.map Writer.Op.wchar
+
+theorem charOps_valid : ∀ codes : List Nat, Writer.Op.validAll (charOps codes) = true
+  | [] => rfl
+  | c :: cs => by
+    have := charOps_valid cs
+    simp only [charOps] at this
+    simp [charOps, Writer.Op.validAll, Writer.Op.valid, this]
+
+theorem charOps_text : ∀ codes : List Nat,
+    Writer.txt (Writer.specOps (charOps codes)) = codes.map UInt8.ofNat
+  | [] => by simp [charOps, Writer.specOps, Writer.txt_empty]
+  | c :: cs => by
+    have ih := charOps_text cs
+    simp only [charOps] at ih
+    simp only [charOps, List.map_cons, Writer.specOps, Writer.specOp, Writer.txt_append, Writer.txt_toByteArray, ih]
+    rfl
 
 end Rlib.IoBridge
